@@ -191,6 +191,35 @@ func BuildAlphabet(t universe.Affine, level int) *Alphabet {
 	addGC(geom.NewGeometryCollection([]geom.Geometry{geom.NewGeometryCollection([]geom.Geometry{ry[8]}).AsGeometry()}).AsGeometry(), ry[7], rs[6])
 	addGC(ry[6], ry[7], rs[1], rp[2])
 	addGC(geom.NewMultiPoint([]geom.Point{t.Point(pts[2]), t.Point(pts[6])}).AsGeometry(), rs[4])
+	// nested collections with an empty member of a higher dimension than the non-empty content
+	// (the dimension of a collection is that of its non-empty parts, at any nesting depth)
+	eP, eL, eY := geom.Point{}.AsGeometry(), geom.LineString{}.AsGeometry(), geom.Polygon{}.AsGeometry()
+	gcOf := func(ms ...geom.Geometry) geom.Geometry { return geom.NewGeometryCollection(ms).AsGeometry() }
+	for _, content := range []geom.Geometry{rp[1], rs[6], rs[0], ry[6]} {
+		for _, e := range []geom.Geometry{eP, eL, eY, geom.MultiPolygon{}.AsGeometry(), geom.MultiLineString{}.AsGeometry()} {
+			addGC(gcOf(e, content))
+			addGC(gcOf(content, e))
+			addGC(gcOf(gcOf(e), content))
+			addGC(gcOf(gcOf(gcOf(e, content))))
+			addGC(e, gcOf(content))
+		}
+	}
+	// repeated consecutive vertices (zero-length segments) in lines, rings and their multis
+	rep := func(ps []universe.LPt, at int) []universe.LPt {
+		out := append([]universe.LPt{}, ps[:at+1]...)
+		out = append(out, ps[at])
+		return append(out, ps[at+1:]...)
+	}
+	sqr := []universe.LPt{{0, 0}, {2, 0}, {2, 2}, {0, 2}, {0, 0}}
+	tri := []universe.LPt{{0, 0}, {2, 0}, {0, 2}, {0, 0}}
+	zig := []universe.LPt{{0, 2}, {1, 0}, {2, 2}}
+	for at := 0; at < 3; at++ {
+		a.Paths = append(a.Paths, mkOp(t.Line(rep(zig, at)).AsGeometry(), "path"))
+		a.Polys = append(a.Polys, mkOp(t.Polygon(rep(sqr, at+1)).AsGeometry(), "poly"), mkOp(t.Polygon(rep(tri, at)).AsGeometry(), "poly"))
+		a.Multis = append(a.Multis,
+			mkOp(geom.NewMultiLineString([]geom.LineString{t.Line(rep(zig, at)), t.Line([]universe.LPt{{0, 0}, {0, 0}, {2, 0}})}).AsGeometry(), "multi"),
+			mkOp(geom.NewMultiPolygon([]geom.Polygon{t.Polygon(rep([]universe.LPt{{0, 0}, {1, 0}, {1, 1}, {0, 1}, {0, 0}}, at+1)), t.Polygon(rep([]universe.LPt{{1, 1}, {2, 1}, {2, 2}, {1, 2}, {1, 1}}, at))}).AsGeometry(), "multi"))
+	}
 	// empties of every type
 	for _, g := range []geom.Geometry{
 		{}, geom.Point{}.AsGeometry(), geom.LineString{}.AsGeometry(), geom.Polygon{}.AsGeometry(),
@@ -282,6 +311,17 @@ func HolesFamily(t universe.Affine) []Operand {
 	}
 	mp := geom.NewMultiPolygon([]geom.Polygon{polys[0], polys[5]})
 	out = append(out, mkOp(mp.AsGeometry(), "holes"))
+	// the same overlapping pairs nested one level down, split over two nested collections, and next to a third member
+	gc := func(ms ...geom.Geometry) geom.Geometry { return geom.NewGeometryCollection(ms).AsGeometry() }
+	for _, pr := range [][2]int{{0, 10}, {0, 4}, {1, 6}, {3, 7}, {2, 10}, {0, 11}} {
+		p, q := polys[pr[0]].AsGeometry(), polys[pr[1]].AsGeometry()
+		for _, g := range []geom.Geometry{gc(gc(p, q)), gc(gc(p), gc(q)), gc(polys[5].AsGeometry(), gc(p, q)), gc(gc(gc(q, p)), lines[0].AsGeometry())} {
+			o := mkOp(g, "holes")
+			o.MembersDisjoint = false
+			o.Overlapping = true
+			out = append(out, o)
+		}
+	}
 	return out
 }
 
